@@ -16,7 +16,8 @@ Pure `ast`.  What is extracted (the Lean model `Frequenz/Model/Graph.lean` is pa
                `consumer_component` (category set + excluded chains)
     producer:  chains of the dfs condition;   pv: chain of the dfs condition
     _formula_generator: leaf predicates of `_get_meter_fallback_components`, pairs of `_is_primary_fallback_pair`,
-               NON_EXISTING_COMPONENT_ID
+               NON_EXISTING_COMPONENT_ID, whether `_get_metric_fallback_components` requires all successors of the
+               predecessor to be requested before pairing (false on the pinned tree)
     every generator: how `nones_are_zeros` is computed at each push_component_metric, the metric id of the builder
     chp:       required predecessor category / count
 
@@ -441,6 +442,21 @@ def generate(repo: pathlib.Path) -> str:
     out.append(f"def fallbackPrimaryCat : Cat := .{cats[0]}")
     lens = [n for n in ast.walk(mfc) if is_cmp(n, ast.Eq) and ast.unparse(n.left) == "len(predecessors)"]
     need(len(lens) == 1 and ast.unparse(lens[0].comparators[0]) == "1", "_get_metric_fallback_components: len(predecessors) == 1")
+    # is a component paired with its predecessor only when ALL successors of the predecessor were requested?
+    pair_ifs = [n for n in ast.walk(mfc) if isinstance(n, ast.If) and "_is_primary_fallback_pair" in ast.unparse(n.test)]
+    need(len(pair_ifs) == 1, "_get_metric_fallback_components: expected one `if self._is_primary_fallback_pair(...)`")
+    cj = conjuncts(pair_ifs[0].test)
+    need(isinstance(cj[0], ast.Call) and ast.unparse(cj[0].func) == "self._is_primary_fallback_pair",
+         "_get_metric_fallback_components: pair test must come first")
+    if len(cj) == 1:
+        requires_all = False
+    else:
+        need(len(cj) == 2 and ast.unparse(cj[1]) == "graph.successors(predecessor.component_id).issubset(components)",
+             f"_get_metric_fallback_components: unexpected extra condition {ast.unparse(pair_ifs[0].test)}")
+        requires_all = True
+    out.append("/-- `_get_metric_fallback_components` pairs a component with its predecessor only if all successors of")
+    out.append("the predecessor are among the requested components -/")
+    out.append(f"def pairRequiresAllRequested : Bool := {lean_bool(requires_all)}")
     # _get_meter_fallback_components
     mf = fg["_get_meter_fallback_components"]
     ifs = [s for s in body_of(mf) if isinstance(s, ast.If)]
